@@ -129,8 +129,9 @@ CLAUSES = {
         "fetch then succeeds or fails; via pieces_ok, deliver_gz_le, gzChunk_le; pieces_machine: the recording machine is the "
         "machine of the other theorems); the oracle states it on every case for the buffered body and for every prefix of "
         "the streaming_callback deliveries",
-    "1xx interim, 204/304, HEAD": "covered by client_agrees_with_spec / client_agrees_with_spec_gz (Spec.read skips 1xx, "
-                                  "204/304/HEAD have no body) and by the tie",
+    "1xx interim, 204/304, HEAD": "covered by client_agrees_with_strict_partial / client_agrees_with_strict_gz_partial "
+                                  "(Spec.strictRead skips 1xx and rejects one that announces a body; HEAD / 304 have no body; "
+                                  "204: framing_204 -- empty body, no Transfer-Encoding, Content-Length absent or 0) and by the tie",
 }
 PARALLEL = True
 CASE_TIMEOUT = int(os.environ.get("VERIF_CASE_TIMEOUT", "60"))   # wall-clock watchdog per case; generous because the box is shared (a case takes ~5 ms)
